@@ -61,6 +61,11 @@ func c08Values(typ string, thorough bool) []c08Val {
 			{"\"dq\"", true, "'\"dq\"'", "double quotes inside"}, {"it's", true, "", "single quote (direct only)"},
 			{"back\\slash", true, "", "backslash (direct only)"}, {"line\nbreak\ttab", true, "", "control characters (direct only)"},
 			{string([]byte{0xff, 0xfe, 0x00, 0x80}), true, "", "invalid UTF-8 and NUL bytes"},
+			// SQL text keeps what stands between the outer quotes verbatim, backslashes included
+			{"\\'", true, "'\\''", "backslash-quote only"}, {"ends in\\'", true, "'ends in\\''", "escaped quote last"},
+			{"\\'starts", true, "'\\'starts'", "escaped quote first"}, {"a\\'b\\'", true, "'a\\'b\\''", "two escaped quotes"},
+			{"\\\\", true, "'\\\\'", "two backslashes"}, {"tail\\\\", true, "'tail\\\\'", "escaped backslash last"},
+			{"\\n", true, "'\\n'", "backslash n (two bytes)"},
 			{nil, true, "", "NULL"},
 			{int64(5), false, "5", "int into VARCHAR"}, {true, false, "true", "bool into VARCHAR"}, {[]byte("raw"), false, "", "[]byte"},
 		}
